@@ -6,6 +6,7 @@ mod codec;
 mod prm;
 mod diag;
 mod phyrx;
+mod las;
 mod util;
 
 use std::io::{BufRead, Write};
@@ -19,6 +20,7 @@ const DOMAINS: &[(&str, GenFn, RunFn)] = &[
     ("prm", prm::gen, prm::run_case),
     ("diag", diag::gen, diag::run_case),
     ("phyrx", phyrx::gen, phyrx::run_case),
+    ("las", las::gen, las::run_case),
 ];
 
 fn main() {
